@@ -1,7 +1,7 @@
 (* C07 — Serialized data validates against serialization_schema. *)
 From Coq Require Import List String ZArith Bool.
 From AV Require Import Core.Json Deser.Model Deser.Spec Ser.Model Ser.Spec Ser.RoundTrip Ser.RoundTripInd Schema.Json Schema.Build Schema.Proofs
-  Schema.AgreeProofs Schema.SerAgree.
+  Schema.AgreeProofs Schema.SerAgree Schema.BuildSer Schema.RefAgree Schema.SerClassProofs.
 Import ListNotations.
 
 (* the union schema accepts whatever one of the alternatives' schemas accepts: the serialized form of a union value,
@@ -43,3 +43,24 @@ Theorem C07_hypotheses_satisfiable :
   /\ con_mergeable u (dopts_of so) (fun _ => false) 0 false t = true /\ keys_ok u t = true.
 Proof. exact serialized_output_validates_ex. Qed.
 Print Assumptions C07_hypotheses_satisfiable.
+
+(* CLASSES.  Schema/BuildSer.v models SerializationSchemaBuilder itself (properties = fields and serialized methods in order(),
+   required = what the serializer cannot skip, dependentRequired restricted to those) and the run compares it structurally with
+   serialization_schema on every generated case.  For dataclasses / NamedTuples of the round-trip fragment (no skip option, no
+   exclude_* setting, declaration order), nested to any depth in containers, unions and other classes, given inline or through $ref + $defs: what
+   serialization produces validates against the schema and definitions of that model.  Obtained by instantiating the
+   invariant theorem of Ser/ImageInv.v (if a property of (type, produced datum) is established by every way of producing
+   data, it holds of the image of every well-typed value) with "validates against build_ser". *)
+Theorem C07_output_validates_with_classes :
+  forall u so t n jf v,
+  ser_hyps u so t n jf v = true ->
+  exists j d, image u so (S n) t v = SROk j /\ unembed j = Some d /\
+              (dd d <= jf -> in_domain d = true ->
+               jvalid false (snd (model_ser_schema u so false t)) jf (fst (model_ser_schema u so false t)) d = true).
+Proof. exact serialized_output_validates_checked. Qed.
+Print Assumptions C07_output_validates_with_classes.
+
+Theorem C07_class_hypotheses_satisfiable :
+  refs_of_ser ser_ex_univ false (TObj 2) = ["C0"; "E0"]%string /\ ser_hyps ser_ex_univ ser_ex_opts (TObj 2) 3 12 ser_ex_value = true.
+Proof. exact ser_ex. Qed.
+Print Assumptions C07_class_hypotheses_satisfiable.
